@@ -230,7 +230,7 @@ pub fn gen_op(rng: &mut Rng, n_rep: usize, n_home: usize, p: &Profile, created: 
             29 => Op::ExtId { r, obj: pick_obj(rng, &pop.named()), val: if rng.chance(1, 4) { None } else { Some(rng.below(4) as u8) } },
             _ => {
                 if pop.oauths == 0 { continue; }
-                Op::ClaimMap { r, oauth: pick_obj(rng, &pop.of(Kind::OAuth2)), claim: rng.below(2) as u8, grp: any_target(rng, pop), remove: rng.chance(1, 5) }
+                Op::ClaimMap { r, oauth: pick_obj(rng, &pop.of(Kind::OAuth2)), claim: rng.below(4).min(2) as u8, grp: any_target(rng, pop), remove: rng.chance(1, 6) }
             }
         };
         return op;
